@@ -63,6 +63,8 @@ pub fn src_name(s: &Src) -> &'static str {
     Src::TimerAt(..) => "timer_at",
     Src::StreamCount(_) => "from_stream",
     Src::IterCount(_) => "from_iter",
+    Src::FromFuture(_) => "from_future",
+    Src::FromFutureResult(_) => "from_future_result",
   }
 }
 
@@ -178,6 +180,98 @@ fn cold_src_job(head: Src, ops: Vec<Op1>) -> Job {
   })
 }
 
+/// statically typed chains (no boxing between the stages) against the model of
+/// the same operator list: shows that `box_it` between stages is transparent
+fn typed_job(id: usize, len: usize) -> Job {
+  use crate::probe::Probe;
+  use crate::world;
+  use rxrust::prelude::*;
+  let ops: Vec<Op1> = match id {
+    0 => vec![Op1::Map, Op1::Filter(P::Lt2), Op1::Take(2)],
+    1 => vec![Op1::Skip(1), Op1::Scan, Op1::Last],
+    2 => vec![Op1::TakeWhile(P::Lt2), Op1::Count],
+    3 => vec![Op1::Distinct, Op1::Pairwise],
+    4 => vec![Op1::BufferWithCount(2), Op1::SkipLast(1)],
+    5 => vec![Op1::StartWith(vec![7]), Op1::TakeLast(2)],
+    6 => vec![Op1::FirstOr(9), Op1::DefaultIfEmpty(9)],
+    7 => vec![Op1::Contains(1), Op1::OnErrorMap],
+    8 => vec![Op1::SkipWhile(P::Lt1), Op1::Min],
+    _ => vec![Op1::ElementAt(1), Op1::Sum],
+  };
+  let pipe = mk_chain(Pipe::hot(0), &ops);
+  Job::new(format!("typed (unboxed) L{len} {}", pipe.show()), move |ch, obs| {
+    let _w = world::World::new();
+    let mut src = Subject::<'static, V, E>::default();
+    let probe = Probe::new();
+    let s = src.clone();
+    match id {
+      0 => {
+        s.map(inc).filter(|v| P::Lt2.ev(v)).take(2).actual_subscribe(probe.clone());
+      }
+      1 => {
+        s.skip(1).scan(|a: V, v: V| a + v).last().actual_subscribe(probe.clone());
+      }
+      2 => {
+        s.take_while(|v| P::Lt2.ev(v)).count().map(V::from).actual_subscribe(probe.clone());
+      }
+      3 => {
+        s.distinct().pairwise().map(V::from).actual_subscribe(probe.clone());
+      }
+      4 => {
+        s.buffer_with_count(2).map(V::from).skip_last(1).actual_subscribe(probe.clone());
+      }
+      5 => {
+        s.start_with(vec![V::I(7)]).take_last(2).actual_subscribe(probe.clone());
+      }
+      6 => {
+        s.first_or(V::I(9)).default_if_empty(V::I(9)).actual_subscribe(probe.clone());
+      }
+      7 => {
+        s.contains(V::I(1)).map(V::from).on_error_map(E::swap).actual_subscribe(probe.clone());
+      }
+      8 => {
+        s.skip_while(|v| P::Lt1.ev(v)).min().actual_subscribe(probe.clone());
+      }
+      _ => {
+        s.element_at(1).sum().actual_subscribe(probe.clone());
+      }
+    }
+    let mut hist: Vec<Note> = vec![];
+    for _ in 0..len {
+      let ev = alpha(ch.choose(ALPHA));
+      ch.label(|| format!("in0 <- {ev:?}"));
+      world::bump_step();
+      match &ev {
+        Note::N(v) => src.next(v.clone()),
+        Note::C => src.clone().complete(),
+        Note::Err(e) => src.clone().error(*e),
+      }
+      hist.push(ev);
+      obs.checks += 1;
+      if let Some(exp) = model::chain(&pipe, &model::normalize(&hist)) {
+        let got = probe.notes();
+        if exp.notes() != got {
+          obs.fail(
+            format!("seq:typed:{}", ops.iter().map(|o| o.name()).collect::<Vec<_>>().join(".")),
+            format!(
+              "unboxed {} on [{}]: expected [{}] got [{}]",
+              pipe.show(),
+              fmt_notes(&hist),
+              fmt_notes(&exp.notes()),
+              fmt_notes(&got)
+            ),
+          );
+          break;
+        }
+      } else {
+        obs.unspecified += 1;
+      }
+    }
+    obs.delivered = probe.len() as u64;
+    obs.note_outcome(&probe.notes());
+  })
+}
+
 fn op_seqs(ops: &[Op1], depth: usize) -> Vec<Vec<Op1>> {
   let mut out: Vec<Vec<Op1>> = vec![vec![]];
   let mut level: Vec<Vec<Op1>> = vec![vec![]];
@@ -221,6 +315,9 @@ pub fn plan(tier: Tier) -> Plan {
       }
     }
   }
+  for id in 0..10 {
+    jobs.push(typed_job(id, if tier == Tier::Quick { 5 } else { 7 }));
+  }
   Plan {
     jobs,
     finish: Finish {
@@ -230,7 +327,7 @@ pub fn plan(tier: Tier) -> Plan {
       rule: "every chain of catalogue operators up to the depth bound x every event history over {next(0..2), complete, error} up to the length bound on a hot subject / hot create() head (oracle after every event), the same scripts delivered cold through create() and from_iter(), and every basic cold source; an execution is non-trivial when at least one notification reached the probe; executions are distinct by construction (distinct scenario x choice vector)".into(),
       bounds: json!(bounds),
       assumptions: vec![
-        "boxing every stage (box_it) is observationally transparent".into(),
+        "boxing every stage (box_it) is observationally transparent; spot-checked by ten statically typed, unboxed three-stage chains run against the same model".into(),
         "take(0) on an input that does not complete, buffer_with_count(0): unspecified, not asserted".into(),
       ],
     },
